@@ -10,7 +10,8 @@
         -> {"out":[id],"spec":[id],"hyp":b}
            out  = model stage output (after the callback),
            spec = filterSpec over the de-duplicated candidates (after the callback),
-           hyp  = the decidable hypotheses of the stage theorem hold for this input
+           hyp  = the decidable hypotheses of the full-strength stage theorem hold for this input
+                  (HypPipeline and CiConsistent / HypFound / no bypass elements)
 -/
 import Spydr.Common.Proto
 import Spydr.Query.Model
@@ -77,22 +78,17 @@ def handle (st : Unit) (j : Json) : Except String (Unit × Json) := do
         | .ok a => let b := (natList a).toOption.getD []; fun e => b.contains e.id
         | .error _ => fun _ => true
       let (out, base, hyp) ← match variant with
-        | "found" => pure (stageFound c others pats, others, decide (Spec.HypFound others pats))
+        | "found" => pure (stageFound c others pats, others, decide (Spec.HypFound others pats) && !c.ci)
         | "pipeline" =>
             pure (pipeline c keyed groups others pats, dedup (groups.flatten ++ others),
-                  decide (Spec.HypPipeline c keyed groups others pats))
-        | "h" => pure (stageH c bypass others pats, dedup (bypass ++ others), bypass.isEmpty)
+                  decide (Spec.HypPipeline c keyed groups others pats) && decide (Spec.CiConsistent c others))
+        | "h" => pure (stageH c bypass others pats, dedup (bypass ++ others), bypass.isEmpty && !c.ci)
         | "none" => pure (stageNone others, dedup others, true)
         | _ => throw s!"unknown variant {variant}"
       let spec :=
         match variant with
         | "none" => base
         | "h" => Spec.filterSpec c base pats
-        | "pipeline" =>
-            -- the documented case-insensitive comparison concerns the indexed parents' children only
-            let g := dedup groups.flatten
-            Spec.filterSpec c g pats ++
-              Spec.filterSpec { c with ci := false } ((dedup others).filter (fun e => !g.contains e)) pats
         | _ => Spec.filterSpec c base pats
       let spec := spec.filter inBase
       pure (st, Json.mkObj [("out", ids (applyFilter f out)), ("spec", ids (applyFilter f spec)),
